@@ -447,6 +447,28 @@ def writeAnnotOrig (labels : List Int) (ctab : List Row) (has5 : Bool) (names : 
     Except Err Bytes :=
   writeAnnotWith (labelsMaxOrig labels) labels ctab has5 names fill
 
+/-- `write_annot` when `labels` has an UNSIGNED integer dtype: `np.max(labels, initial=-1)` (the repair of the
+    zero-vertex case) raises OverflowError under NumPy 2 (the Python int -1 is out of bounds for the dtype), after
+    the label lookup succeeded (open finding `annot:unsigned-labels-overflow`) -/
+def writeAnnotUnsigned (labels : List Int) (ctab : List Row) (has5 : Bool) (names : List Bytes) (fill : Bool) :
+    Except Err Bytes :=
+  writeAnnotWith (.error .overflow) labels ctab has5 names fill
+
+/-- PROPOSED repair of `write_annot` (not in the tree): unlabeled vertices never index the table
+    (`clut_labels = np.zeros(vnum, ...); m = labels != -1; clut_labels[m] = ctab[:, -1][labels[m]]`) -/
+def clutLabelFixed (avals : List Int) (l : Int) : Except Err Int :=
+  if l = -1 then .ok 0 else indexPy avals l
+
+def clutLabelsFixed (avals : List Int) : List Int → Except Err (List Int)
+  | [] => .ok []
+  | l :: ls =>
+    match clutLabelFixed avals l with
+    | .ok c =>
+      match clutLabelsFixed avals ls with
+      | .ok cs => .ok (c :: cs)
+      | .error e => .error e
+    | .error e => .error e
+
 /-- `np.fromfile(fobj, dt, vnum * 2).reshape(vnum, 2)[:, 1]` -/
 def rdVtx : Nat → Bytes → Except Err (List Int × Bytes)
   | 0, bs => .ok ([], bs)
@@ -806,5 +828,63 @@ def mghSaveLoad (shape : List Nat) (dt : String) (data : List Nat) (affDelta : L
         match setZooms h0 zs with
         | .error e => .error e
         | .ok h1 => mghSaveLoadFrom shape3 code h1 data affDelta ras ftrSets
+
+/-! ## MGH: LOAD → edit → SAVE → LOAD history (everything a loaded header carries) -/
+
+/-- everything a loaded `MGHHeader` holds besides `version` (which `check_fix` forces to `versionOk`): the
+    C19 fields `h`, `dof` and `goodRASFlag` as raw unsigned patterns (`>i4` / `>i2`), the 48 `Mdc`/`Pxyz_c` bytes -/
+structure MghFull where
+  h : MghHdr
+  dof : Nat
+  good : Nat
+  ras : Bytes
+  deriving DecidableEq, Repr
+
+def encU16 (g : Nat) : Bytes := [g / 256 % 256, g % 256]
+
+/-- `writehdr_to` + `_write_data` + `writeftr_to` (mghformat.py:387-425, 561-581) for an arbitrary header
+    state: the 90 header bytes are `binaryblock[:90]` VERBATIM (so `dof` and `goodRASFlag` are whatever the
+    header holds, not the defaults), the footer is `binaryblock[90:110]` verbatim -/
+def writeMghX (L : MghFull) (bpv : Nat) (data : List Nat) : Bytes :=
+  encU32 versionOk ++ (encU32s L.h.dims.toList ++ (encU32 L.h.code ++ (encU32 L.dof ++ (encU16 L.good ++
+    (encU32s L.h.delta ++ (L.ras ++ (zeros (dataOffset - hdrItemsize) ++ (encWs bpv data ++ encU32s L.h.ftr))))))))
+
+/-- `MGHHeader.from_fileobj` + `data_from_fileobj` as `readMgh`, returning in addition `dof` and the
+    `goodRASFlag` the loaded header holds (`_set_affine_default` stores `defGoodNoRas` when the file had 0) -/
+def readMghX (bs : Bytes) : Except Err (MghFull × List Nat) :=
+  match readMgh bs with
+  | .error e => .error e
+  | .ok (h, ras, data) =>
+    let good := decBE ((bs.drop 28).take 2)
+    .ok (⟨h, decBE ((bs.drop 24).take 4), if good = 0 then defGoodNoRas else good, ras⟩, data)
+
+/-- an optional `header.set_zooms(zs)` call -/
+def optSetZooms (h : MghHdr) : Option (List Nat) → Except Err MghHdr
+  | none => .ok h
+  | some zs => setZooms h zs
+
+/-- the history `img = load(file); [img.header.set_zooms(zs)]; img.header[footer field] = v ...; save(img, other);
+    load(other)` (MGHImage.from_file_map 503-535, to_file_map 537-559).  The loaded image's affine IS the header's
+    affine, so `update_header` leaves `delta`/`Mdc`/`Pxyz_c` alone as long as the caller does not change `delta`
+    (`np.allclose(affine, affine)`; finite values — the harness generates no NaN/inf/overflowing `Mdc`/`Pxyz_c`);
+    a `set_zooms` that CHANGES the voxel sizes makes `update_header` re-derive them from the affine in floating
+    point: refused as unmodelled.  Result: first load, second file, second load. -/
+def mghResave (file : Bytes) (setZ : Option (List Nat)) (ftrSets : List (Nat × Nat)) :
+    Except Err (MghFull × List Nat × Bytes × MghFull × List Nat) :=
+  match readMghX file with
+  | .error e => .error e
+  | .ok (L, data) =>
+    match optSetZooms L.h setZ with
+    | .error e => .error e
+    | .ok h1 =>
+      if h1.delta ≠ L.h.delta then .error .unmodelled else
+      match bytesPerVox h1.code with
+      | none => .error .key
+      | some bpv =>
+        let L2 : MghFull := { L with h := setFtr h1 ftrSets }
+        let f2 := writeMghX L2 bpv data
+        match readMghX f2 with
+        | .error e => .error e
+        | .ok (L3, data3) => .ok (L, data, f2, L3, data3)
 
 end Nb.C19
